@@ -378,6 +378,9 @@ func c43PartA(r *ve.Run) (states int64, transitions int64) {
 	}
 	dims := []int{len(cfgs), maxMax + 3, maxMax + 4, 1 << uint(maxMax+2)}
 	r.ParallelFor(ve.ProductSize(dims), func(i int) {
+		if r.Violations() > 0 {
+			return // a violation was reported: the remaining enumeration adds nothing
+		}
 		var v [4]int
 		ve.Unrank(i, dims, v[:])
 		cfg := cfgs[v[0]]
@@ -457,6 +460,9 @@ func c43PartA(r *ve.Run) (states int64, transitions int64) {
 		}
 	}
 	r.ParallelFor(len(jobs), func(j int) {
+		if r.Violations() > 0 {
+			return
+		}
 		st := sts[jobs[j].st]
 		n2 := jobs[j].n2
 		cfg := st.rep.Cfg
@@ -568,6 +574,9 @@ func c43PartA(r *ve.Run) (states int64, transitions int64) {
 		}
 	}
 	r.ParallelFor(len(cases), func(i int) {
+		if r.Violations() > 0 {
+			return
+		}
 		c := cases[i]
 		data := c43Data(c.L, 0x37)
 		s := c43SlFresh(c.cfg, c.n)
